@@ -52,6 +52,8 @@ macro_rules! dispatch {
             "C13" => $f(&props::c13::C13, $($arg),*),
             "C05" => $f(&props::c05::C05, $($arg),*),
             "C01" => $f(&props::c01::C01, $($arg),*),
+            "C12" => $f(&props::c12::C12, $($arg),*),
+            "C02" => $f(&props::c02::C02, $($arg),*),
             _ => {
                 eprintln!("unknown property {}", $id);
                 2
